@@ -209,7 +209,7 @@ impl Property for C13 {
         }
     }
     fn rule(&self) -> &'static str {
-        "each case: an instance with 1-3 integer/binary variables (one in 25 without any variable and a constant inequality) with integer boxes inside [-4,4] (ids small or sparse), an inequality f(x)<=0 of degree <= 2 whose coefficients are integers or p/q from one denominator family (lcm <= 42), a second untouched constraint and in half the cases 1-4 more with ids on both sides of the target, the list stored ascending, descending or shuffled, one case in eight after a relax->restore history; even cases call convert_inequality_to_equality_with_integer_slack(id, max) (max huge, or 0..3 in one of six cases), odd cases add_integer_slack_to_inequality(id, ub in 1..6); one case in four is a rejection scenario (unknown constraint id, an equality constraint, a continuous or semi-continuous variable used). Every lattice point of the box is enumerated: f(x)<=0 (SDK rule: < 1e-6) must hold iff some integer slack value in the introduced bound satisfies the new constraint (exact rational evaluation of the returned f64 coefficients; only the three slack values nearest to -a*f(x) can qualify since others are >= 1/42 away). Relaxed => every point satisfies it; InfeasibleDetected => no point does; rejections leave the instance equal. Non-trivial = a non-constant inequality; distinct = fingerprint of (instance, method, argument)."
+        "each case: an instance with 1-3 integer/binary variables (one in 25 without any variable and a constant inequality) with integer boxes inside [-4,4] (ids small or sparse), an inequality f(x)<=0 of degree <= 2 whose coefficients are integers or p/q from one denominator family (lcm <= 42), a second untouched constraint and in half the cases 1-4 more with ids on both sides of the target, the list stored ascending, descending or shuffled, one case in eight after a relax->restore history; even cases call convert_inequality_to_equality_with_integer_slack(id, max) (max huge, or 0..3 in one of six cases), odd cases add_integer_slack_to_inequality(id, ub in 1..6); one case in four is a rejection scenario (unknown constraint id, an equality constraint, a continuous or semi-continuous variable used). Every lattice point of the box is enumerated: f(x)<=0 (SDK rule: < 1e-6) must hold iff some integer slack value in the introduced bound satisfies the new constraint (exact rational evaluation of the new constraint at the lattice point as a polynomial in the slack alone: for degree <= 1 only the slack values around its root and the ends of the slack bound can qualify, otherwise every slack value is tried; the new variable is recognised by its fresh id, nothing else about its position or the shape of the new function is assumed). Relaxed => every point satisfies it; InfeasibleDetected => no point does; rejections leave the instance equal. Non-trivial = a non-constant inequality; distinct = fingerprint of (instance, method, argument)."
     }
     fn assumptions(&self) -> Vec<&'static str> {
         vec![
@@ -300,7 +300,11 @@ impl Property for C13 {
                 if after != before {
                     mon.violation(format!("C13.rejection-modified-instance:valid-inequality:{method}"), ctx(&after, &out));
                 }
-                if e.contains("exceeds the limit") && small_max {
+                // with a small limit a refusal is legitimate whenever the SDK's (interval) estimate of the
+                // slack range exceeds it; the estimate is the SDK's own, so such refusals are only required
+                // to leave the instance unchanged (the wording of the error is not relied upon)
+                let _ = e;
+                if small_max {
                     mon.facet("convert/range-above-limit-rejected");
                 } else {
                     mon.violation(format!("C13.rejected-valid-inequality:{method}"), ctx(&after, &out));
@@ -329,7 +333,12 @@ impl Property for C13 {
                 let other_before: BTreeMap<u64, &v1::Constraint> = before.constraints.iter().filter(|c| c.id != case.cid).map(|c| (c.id, c)).collect();
                 let other_after: BTreeMap<u64, &v1::Constraint> = after.constraints.iter().filter(|c| c.id != case.cid).map(|c| (c.id, c)).collect();
                 let n_other_after = after.constraints.iter().filter(|c| c.id != case.cid).count();
-                if other_before != other_after || n_other_after != other_before.len() || after.objective != before.objective || after.decision_variables.len() < before.decision_variables.len() || after.decision_variables[..before.decision_variables.len()] != before.decision_variables[..] {
+                // variables are identified by id: the new one is the one the instance did not define before
+                // (where the SDK puts it in the list is not part of the property)
+                let old_ids: std::collections::BTreeSet<u64> = before.decision_variables.iter().map(|v| v.id).collect();
+                let kept: Vec<v1::DecisionVariable> = after.decision_variables.iter().filter(|v| old_ids.contains(&v.id)).cloned().collect();
+                let added: Vec<&v1::DecisionVariable> = after.decision_variables.iter().filter(|v| !old_ids.contains(&v.id)).collect();
+                if other_before != other_after || n_other_after != other_before.len() || after.objective != before.objective || !crate::gen::same_variables(&kept, &before.decision_variables) {
                     mon.violation(format!("C13.unrelated-parts-changed:{method}"), ctx(&after, &out));
                 }
                 match (c_after, relaxed) {
@@ -342,7 +351,7 @@ impl Property for C13 {
                         if r.constraint.as_ref() != target {
                             mon.violation(format!("C13.relaxed-constraint-changed:{method}"), ctx(&after, &out));
                         }
-                        if after.decision_variables.len() != before.decision_variables.len() {
+                        if !added.is_empty() {
                             mon.violation(format!("C13.relaxed-but-variable-added:{method}"), ctx(&after, &out));
                         }
                         if !convert && b.is_some() {
@@ -351,26 +360,24 @@ impl Property for C13 {
                     }
                     (Some(cn), None) => {
                         mon.facet(&format!("{method}/slack-introduced"));
-                        if after.decision_variables.len() != before.decision_variables.len() + 1 {
-                            mon.violation(format!("C13.slack-variable-count:{method}"), ctx(&after, &out));
+                        if added.len() != 1 || after.decision_variables.len() != before.decision_variables.len() + 1 {
+                            // a repeated old id counts here as well: the slack id must be fresh
+                            let sig = if after.decision_variables.len() == before.decision_variables.len() + 1 { "slack-id-not-fresh" } else { "slack-variable-count" };
+                            mon.violation(format!("C13.{sig}:{method}"), ctx(&after, &out));
                             return;
                         }
-                        let s = after.decision_variables.last().unwrap();
-                        let old_ids: Vec<u64> = before.decision_variables.iter().map(|v| v.id).collect();
-                        if old_ids.contains(&s.id) {
-                            mon.violation(format!("C13.slack-id-not-fresh:{method}"), ctx(&after, &out));
-                            return;
-                        }
+                        let s = added[0];
                         let (sl, su) = crate::gen::effective_bound(s);
-                        if s.kind != KIND_INTEGER || sl != 0.0 || !(su >= 0.0) || su != su.trunc() || s.subscripts != vec![case.cid as i64] {
+                        // an integer slack with finite integer bounds (a binary one is an integer in [0,1])
+                        if !(s.kind == KIND_INTEGER || s.kind == KIND_BINARY) || !sl.is_finite() || !su.is_finite() || sl > su || sl != sl.trunc() || su != su.trunc() {
                             mon.violation(format!("C13.slack-variable-shape:{method}"), format!("slack variable {s:?}\n{}", ctx(&after, &out)));
                             return;
                         }
-                        if !convert && su != arg as f64 {
-                            mon.violation("C13.slack-upper-bound:add_slack", format!("slack bound [{sl}, {su}] but the caller asked for {arg}\n{}", ctx(&after, &out)));
+                        if !convert && su - sl != arg as f64 {
+                            mon.violation("C13.slack-upper-bound:add_slack", format!("slack bound [{sl}, {su}] but the caller asked for a slack of range {arg}\n{}", ctx(&after, &out)));
                         }
-                        if convert && su > arg as f64 {
-                            mon.violation("C13.slack-range-above-limit:convert", format!("slack range {su} exceeds max_integer_range {arg}\n{}", ctx(&after, &out)));
+                        if convert && su - sl > arg as f64 {
+                            mon.violation("C13.slack-range-above-limit:convert", format!("slack range [{sl}, {su}] exceeds max_integer_range {arg}\n{}", ctx(&after, &out)));
                         }
                         let expected_eq = if convert { EQ_ZERO } else { LE_ZERO };
                         if cn.equality != expected_eq {
@@ -378,12 +385,6 @@ impl Property for C13 {
                             return;
                         }
                         let gpoly = canon_opt_function(&cn.function);
-                        // g restricted to s=0 must be f (exactly: the SDK adds one term)
-                        let mut zero_s = BTreeMap::new();
-                        zero_s.insert(s.id, Q::zero());
-                        if gpoly.partial(&zero_s) != fpoly {
-                            mon.violation(format!("C13.original-part-changed:{method}"), ctx(&after, &out));
-                        }
                         let coef = gpoly.coeff(&[s.id]);
                         if !convert {
                             match b {
@@ -396,26 +397,42 @@ impl Property for C13 {
                                 None => mon.violation("C13.returned-coefficient:add_slack", format!("slack introduced but no coefficient returned\n{}", ctx(&after, &out))),
                             }
                         }
-                        // brute force: feasibility of x is unchanged
-                        let su_i = su as i64;
+                        // brute force: feasibility of x is unchanged. For each lattice point the new constraint is a
+                        // polynomial in the slack alone, g(x, s) = A + B*s (+ higher powers, then every slack value
+                        // is tried); nothing else about the shape of the new function is assumed.
+                        let (sl_i, su_i) = (sl as i64, su as i64);
                         for ((i, v), feas) in values.iter().zip(feasible.iter()) {
-                            let exists = if coef.is_zero() {
-                                if convert { holds_eq(v) } else { holds_le(v) }
+                            let at_x: BTreeMap<u64, Q> = pts[*i].clone();
+                            let gs = gpoly.partial(&at_x);
+                            let holds = |gv: &Q| if convert { holds_eq(gv) } else { holds_le(gv) };
+                            let value_at = |sv: i64| {
+                                let mut m = BTreeMap::new();
+                                m.insert(s.id, qi(sv));
+                                gs.eval(&m).expect("only the slack is left")
+                            };
+                            let exists = if gs.degree() <= 1 {
+                                let a0 = value_at(0);
+                                let b1 = &value_at(1) - &a0;
+                                if b1.is_zero() {
+                                    holds(&a0)
+                                } else {
+                                    // candidates: the integers around -A/B, and the ends
+                                    let t = -(&a0 / &b1);
+                                    let t0 = t.floor().to_integer().to_i64().unwrap_or(i64::MAX - 4);
+                                    let mut cands = vec![sl_i, su_i, t0 - 1, t0, t0 + 1, t0 + 2];
+                                    cands.retain(|c| *c >= sl_i && *c <= su_i);
+                                    cands.iter().any(|sv| holds(&value_at(*sv)))
+                                }
+                            } else if su_i - sl_i <= 100_000 {
+                                (sl_i..=su_i).any(|sv| holds(&value_at(sv)))
                             } else {
-                                // candidates: nearest integers to -f/coef, and the ends
-                                let t = -(v / &coef);
-                                let t0 = t.floor().to_integer().to_i64().unwrap_or(i64::MAX);
-                                let mut cands = vec![0, su_i, t0 - 1, t0, t0 + 1, t0 + 2];
-                                cands.retain(|c| *c >= 0 && *c <= su_i);
-                                cands.iter().any(|sv| {
-                                    let gv = v + &coef * qi(*sv);
-                                    if convert { holds_eq(&gv) } else { holds_le(&gv) }
-                                })
+                                mon.facet("slack-of-higher-degree-and-large-range:not-judged");
+                                *feas
                             };
                             if exists != *feas {
                                 mon.violation(
                                     format!("C13.feasible-set-changed:{}:{method}", if *feas { "feasible-point-lost" } else { "infeasible-point-admitted" }),
-                                    format!("x={:?}: f(x)={v} ({}), but with slack in [0,{su}] and coefficient {coef} the new constraint is {}\n{}", pts[*i], if *feas { "satisfies f<=0" } else { "violates f<=0" }, if exists { "satisfiable" } else { "not satisfiable" }, ctx(&after, &out)),
+                                    format!("x={:?}: f(x)={v} ({}), but with slack in [{sl},{su}] and coefficient {coef} the new constraint is {}\n{}", pts[*i], if *feas { "satisfies f<=0" } else { "violates f<=0" }, if exists { "satisfiable" } else { "not satisfiable" }, ctx(&after, &out)),
                                 );
                                 break;
                             }
